@@ -31,10 +31,11 @@ type Oracle func(src string) Outcome
 
 // Case is the replayable form of a violation.
 type Case struct {
-	Src      string // reduced failing program
-	Origin   string // where the failing program came from
-	Original string `json:",omitempty"` // the unreduced program (truncated when huge)
-	Mode     string `json:",omitempty"` // "" = templ fmt on stdin, "fmtfile" = templ fmt for a named file (imports.Process)
+	Src      string  // reduced failing program
+	Origin   string  // where the failing program came from
+	Original string  `json:",omitempty"` // the unreduced program (truncated when huge)
+	Mode     string  `json:",omitempty"` // "" = templ fmt on stdin, "fmtfile" = templ fmt for a named file (imports.Process), "save", "fmtfail", "fmtdir"
+	Dir      *DirJob `json:",omitempty"` // Mode "fmtdir": the directory job
 }
 
 // memo caches oracle outcomes by program text (reductions revisit the same
@@ -382,7 +383,7 @@ func (r *Runner) Run() {
 	// (0) the listed known findings, as fixed cases
 	still, gone := 0, []string{}
 	for _, k := range c.KnownKeys() {
-		if strings.HasPrefix(k, "fmtfile:") || strings.HasPrefix(k, "save:") || strings.HasPrefix(k, "fmtfail:") {
+		if strings.HasPrefix(k, "fmtfile:") || strings.HasPrefix(k, "save:") || strings.HasPrefix(k, "fmtfail:") || strings.HasPrefix(k, "fmtdir:") {
 			continue // belongs to the named-file / format-on-save workload
 		}
 		src, ok := KeyProgram(k)
